@@ -203,7 +203,10 @@ class Check:
             "wall_s": round(wall, 2),
             "violations": len(self.violations),
         }
-        with open(os.path.join(EVID, f"{self.pid}.json"), "w") as fh:
+        evdir = EVID if self.pid.startswith("C") and self.pid[1:].isdigit() \
+            else os.path.join(VERIF, ".work")
+        os.makedirs(evdir, exist_ok=True)
+        with open(os.path.join(evdir, f"{self.pid}.json"), "w") as fh:
             json.dump(evidence, fh, indent=1, default=str)
         seen = set()
         for key, what in self.known_hits:
